@@ -29,10 +29,15 @@ KWORDER = os.environ.get('VERIF_C20_KWORDER', '1') != '0'
 # Key collisions of the UNCHANGED tree, outside the alphabet of the key theorems (reported, not in the default stream):
 #  - a str made of the two lone surrogates U+D800 U+DC00 and the str chr(0x10000) are serialised alike by
 #    json.dumps(ensure_ascii=True) ("\\ud800\\udc00"), so f(a); f(b) returns f(a) twice;
-#  - in lazy mode a callable whose __name__ is true / false / null is keyed like the value True / False / None.
+#  - in lazy mode a callable whose __name__ is true / false / null is keyed like the value True / False / None;
+#  - two DataMatrix arguments that differ only in their configuration -- the `sorted` flag (columns created in
+#    alphabetical order) or default_col_type -- share one key (convert.to_json carries neither): f = lambda dm: dm.sorted
+#    returns the first table's answer for the second.  (The property lists cells, column names and row order.)
 INCLUDE_PENDING_FINDINGS = False
 XKEYS = {'k1': -1, 'k2': -2}
-UNKNOWN_VALUE = 99
+# class id = base + MOD * t: t = number of thunk slots of the base form (in order) that hold a callable
+MOD = 1000
+UNKNOWN_VALUE = MOD - 1
 UNKNOWN_KEY = -99
 
 
@@ -54,10 +59,18 @@ LONG_SERIES_N = 340       # depth 3
 DM_NUMERIC = list(range(60, 80))
 DM_NEAR_PAIRS = [(60, 61), (62, 63), (62, 64), (30, 62), (65, 66), (67, 68), (69, 70), (71, 72), (73, 74), (75, 76),
                  (77, 78), (60, 79)]
+# tables without rows, and tables that differ only in what a serialisation that keeps "the cells" may drop: the depth of a
+# series column that has no rows (or whose rows are all zero), the type of a column without cells, the name of such a
+# column, the order of the columns of a table with sorted = False
+DM_SHAPE_PAIRS = [(110, 111), (110, 112), (111, 112), (113, 114), (114, 115), (113, 115), (113, 117), (115, 116), (118, 119),
+                  (120, 121), (122, 123), (124, 125), (110, 116), (126, 127), (110, 126)]
+DM_NEAR_PAIRS += DM_SHAPE_PAIRS
 DM_LONG = (69, 70, 71, 72, 73, 74)
 # classes whose body result is falsy or otherwise unusual (see SPECIAL): the argument list names the result
 RET = '__ret__'
-SPECIAL_BASES = list(range(80, 94))
+SPECIAL_BASES = list(range(80, 94)) + list(range(130, 145))
+# argument lists with callables below the top level (lazy mode): base -> thunk slots, see NESTED_SLOTS
+NESTED_BASES = list(range(100, 110))
 
 
 def _tdm(kind, vals, name='x'):
@@ -95,20 +108,141 @@ def _long_tables():
     return _LONG
 
 
+def _ret_tables():
+    """tag -> function that builds a DataMatrix with non-default configuration / structure (what a memoized function
+    may well return): the value that comes back from the cache (a pickle) must be that table again"""
+    import numpy as np
+    from datamatrix import DataMatrix, FloatColumn, IntColumn, MixedColumn, SeriesColumn
+
+    def unsorted():
+        # columns presented as created, created in non-alphabetical order
+        dm = DataMatrix(length=3)
+        dm.sorted = False
+        dm.subject = IntColumn
+        dm.subject = [1, 2, 3]
+        dm.rt = IntColumn
+        dm.rt = [100, 200, 300]
+        dm.accuracy = IntColumn
+        dm.accuracy = [0, 1, 0]
+        return dm
+
+    def created_za():
+        # an ordinary (sorted) table created in reverse alphabetical order: np.array(dm) follows the creation order
+        dm = DataMatrix(length=2)
+        dm.z = [1, 2]
+        dm.m = [3, 4]
+        dm.a = [5, 6]
+        return dm
+
+    def alias():
+        # one column known under two names
+        dm = DataMatrix(length=2)
+        dm.b = [1, 2]
+        dm.a = dm.b
+        return dm
+
+    def default_float():
+        dm = DataMatrix(length=2, default_col_type=FloatColumn)
+        dm.x = 1.5
+        dm.w = [0.1 + 0.2, 2]
+        return dm
+
+    def series3():
+        dm = DataMatrix(length=2)
+        dm.trace = SeriesColumn(depth=3)
+        dm.trace[:] = np.array([[0.1 + 0.2, 1.0, 2.0], [3.0, 4.0, 5.0]])
+        dm.i = IntColumn
+        dm.i = [7, 8]
+        return dm
+
+    def series_zero(depth):
+        def build():
+            dm = DataMatrix(length=0)
+            dm.s = SeriesColumn(depth=depth)
+            return dm
+        return build
+
+    def int_float_mixed():
+        dm = DataMatrix(length=3)
+        dm.n = IntColumn
+        dm.n = [2 ** 53 + 1, -1, 0]
+        dm.f = FloatColumn
+        dm.f = [0.1 + 0.2, float('inf'), 5e-324]
+        dm.m = MixedColumn
+        dm.m = ['x', None, 1.5]
+        return dm
+
+    def unsorted_default_int():
+        dm = DataMatrix(length=2, default_col_type=IntColumn)
+        dm.sorted = False
+        dm.b = [1, 2]
+        dm.a = [3, 4]
+        dm.c = MixedColumn
+        dm.c = ['p', 'q']
+        return dm
+
+    def row_subset():
+        # rows taken out of another table, in another order (row ids 2, 0), columns created b then a, then renamed
+        dm = DataMatrix(length=3)
+        dm.sorted = False
+        dm.q = ['x', 'y', 'z']
+        dm.a = [1, 2, 3]
+        dm.rename('q', 'b')
+        return dm[[2, 0]]
+
+    def zero_rows_typed():
+        dm = DataMatrix(length=0)
+        dm.sorted = False
+        dm.k = IntColumn
+        dm.f = FloatColumn
+        dm.a = MixedColumn
+        return dm
+
+    def empty_selection():
+        # what `dm.col > 99` gives when nothing matches: no rows, the columns (and the depth of the series) remain
+        dm = series3()
+        return dm.i > 99
+
+    return {
+        'dm_unsorted': unsorted, 'dm_created_za': created_za, 'dm_alias': alias, 'dm_default_float': default_float,
+        'dm_series3': series3, 'dm_series_zero2': series_zero(2), 'dm_series_zero5': series_zero(5),
+        'dm_int_float_mixed': int_float_mixed, 'dm_unsorted_default_int': unsorted_default_int,
+        'dm_row_subset': row_subset, 'dm_zero_rows_typed': zero_rows_typed, 'dm_empty_selection': empty_selection,
+        'list_of_dm': lambda: [unsorted(), 1, series_zero(4)()], 'tuple_of_dm': lambda: (created_za(), None),
+        'dm_unsorted_alias': lambda: _unsorted_alias(),
+    }
+
+
+def _unsorted_alias():
+    from datamatrix import DataMatrix
+    dm = DataMatrix(length=2)
+    dm.sorted = False
+    dm.y = [1, 2]
+    dm.x = dm.y
+    dm.w = [1, 2]
+    return dm
+
+
 def _special():
     """tag -> function that builds the result (a new object per call)"""
     from datamatrix import DataMatrix
-    return {
+    d = {
         'none': lambda: None, 'zero': lambda: 0, 'empty_str': lambda: '', 'empty_list': lambda: [],
         'false': lambda: False, 'nan': lambda: float('nan'), 'zero_float': lambda: 0.0, 'empty_dict': lambda: {},
         'empty_tuple': lambda: (), 'empty_dm': lambda: DataMatrix(length=0), 'tuple_none': lambda: (None, 0),
         'empty_bytes': lambda: b'', 'list_none': lambda: [None], 'true': lambda: True,
     }
+    d.update(_ret_tables())
+    return d
 
 
+RET_TABLE_TAGS = ['dm_unsorted', 'dm_created_za', 'dm_alias', 'dm_default_float', 'dm_series3', 'dm_series_zero2',
+                  'dm_series_zero5', 'dm_int_float_mixed', 'dm_unsorted_default_int', 'dm_row_subset', 'dm_zero_rows_typed',
+                  'dm_empty_selection', 'list_of_dm', 'tuple_of_dm', 'dm_unsorted_alias']
+RET_TABLE_BASES = list(range(130, 145))
 SPECIAL_TAGS = ['none', 'zero', 'empty_str', 'empty_list', 'false', 'nan', 'zero_float', 'empty_dict', 'empty_tuple',
-                'empty_dm', 'tuple_none', 'empty_bytes', 'list_none', 'true']
-assert len(SPECIAL_TAGS) == len(SPECIAL_BASES)
+                'empty_dm', 'tuple_none', 'empty_bytes', 'list_none', 'true'] + RET_TABLE_TAGS
+assert len(SPECIAL_TAGS) == len(SPECIAL_BASES) and len(RET_TABLE_TAGS) == len(RET_TABLE_BASES)
 
 
 def plain_body(args, kwargs):
@@ -119,11 +253,43 @@ def plain_body(args, kwargs):
     return ['R', canon(args), canon(kwargs)]
 
 
+def _col_shape(col):
+    """[length] -- for a series column [length, depth]: the cells do not tell the depth when there are no rows"""
+    return [len(col)] + ([int(col.depth)] if hasattr(col, 'depth') else [])
+
+
+def dm_observe(dm):
+    """Everything the property can observe of a returned DataMatrix: length, the sorted flag, the default column type,
+    the column names as listed, per column (in the order the table presents them) name, type, shape and every cell, which
+    names are one and the same column object, the row ids, and np.array(dm) (which follows the order in which the
+    columns were created, also for a sorted table)."""
+    cols = list(dm.columns)
+    out = ['dm', len(dm), ['sorted', bool(dm.sorted)], ['default', getattr(dm.default_col_type, '__name__', '?')],
+           ['names', list(dm.column_names)]]
+    out.append(['cols'] + [[name, type(col).__name__, _col_shape(col), [canon(v) for v in col]]
+                           for name, col in cols])
+    out.append(['same'] + [[m for m, c2 in cols if c2 is col] for _n, col in cols])
+    try:
+        out.append(['rowid'] + [int(i) for i in dm._rowid])
+    except Exception as e:       # noqa: BLE001
+        out.append(['rowid', type(e).__name__])
+    try:
+        import numpy as np
+        arr = np.array(dm)
+        out.append(['array', list(arr.shape), canon(arr.tolist())])
+    except Exception as e:       # noqa: BLE001
+        out.append(['array', type(e).__name__])
+    return out
+
+
 def vdesc(obj):
-    """identification of a returned value: type and content (0 / 0.0 / False, () / [] and NaN are told apart)"""
+    """identification of a returned value: type and content (0 / 0.0 / False, () / [] and NaN are told apart; a
+    DataMatrix -- also inside a list or tuple -- by dm_observe)"""
     from datamatrix import DataMatrix
     if isinstance(obj, DataMatrix):
-        return 'DataMatrix:' + repr(canon(obj))
+        return 'DataMatrix:' + repr(dm_observe(obj))
+    if isinstance(obj, (list, tuple)) and any(isinstance(v, DataMatrix) for v in obj):
+        return type(obj).__name__ + ':[' + ', '.join(vdesc(v) for v in obj) + ']'
     return type(obj).__name__ + ':' + repr(obj)
 
 
@@ -256,8 +422,130 @@ def bases():
     # a tuple holding None, b'', [None], True)
     for b, tag in zip(SPECIAL_BASES, SPECIAL_TAGS):
         B[b] = [((RET, tag), {}, '')]
-    assert all(b < 100 for b in B)
+    # callables below the top level (lazy mode): the thunk slots of these bases are listed in NESTED_SLOTS; every base
+    # keeps non-callable siblings next to the slot at every level
+    B.update({
+        100: [(({'left': [1], 'right': [2, 10]},), {'extra': [(3, 'x')]}, ''),
+              (({'right': (2, 10), 'left': (1,)},), {'extra': ([3, 'x'],)}, 'kwperm')],
+        101: [(([1, [2, [3, 'deep']]], 'sib'), {}, ''), (((1, (2, (3, 'deep'))), 'sib'), {}, '')],
+        102: [(({'k': ({'m': 5, 'n': 'x'},)},), {}, '')],
+        103: [((), {'opt': {'inner': [7, 8]}, 'plain': 1}, ''), ((), {'plain': 1, 'opt': {'inner': (7, 8)}}, 'kwperm')],
+        104: [(([9, [10, 11]],), {}, '')],
+        105: [(([[12], 13],), {}, ''), ((([12], 13),), {}, '')],
+        106: [((0, [[1.5, None], 'x']), {'kw': ({'d': [True]},)}, '')],
+        107: [(([[[2, 3], 4]],), {}, '')],
+        108: [(([[_dm({'a': [1, 2]}), 5]],), {'t': {'u': (6, 'v')}}, '')],
+        109: [(('p', {'a': {'b': {'c': 14}}, 'z': 0}), {}, ''), (('p', {'z': 0, 'a': {'b': {'c': 14}}}), {}, 'kwperm')],
+    })
+    B.update(_shape_tables())
+    assert all(b < MOD - 1 for b in B)
     return B
+
+
+_SHAPE = {}
+
+
+def _shape_tables():
+    """built once per process (neither memoize nor the body changes an argument)"""
+    if not _SHAPE:
+        B = _SHAPE
+        # DataMatrix arguments without rows, and pairs that differ only in the shape of an array without cells / of all-zero
+        # cells, in the type or the name of a column without cells, in the order of the columns of an unsorted table
+        B.update({
+            110: [((_zdm([('s', 2)]),), {}, ''), ((_zdm([('s', 2)]),), {}, ''), ((_zdm([('s', 2)], rows=3)[0:0],), {}, '')],
+            111: [((_zdm([('s', 5)]),), {}, ''), ((_zdm([('s', 5)], rows=2)[0:0],), {}, '')],
+            112: [((_zdm([('s', 3)]),), {}, '')],
+            113: [((_zdm([('a', 'int')]),), {}, ''), ((_zdm([('a', 'int')], rows=2)[0:0],), {}, '')],
+            114: [((_zdm([('a', 'float')]),), {}, '')],
+            115: [((_zdm([('a', 'mixed')]),), {}, '')],
+            116: [((_zdm([]),), {}, '')],
+            117: [((_zdm([('b', 'int')]),), {}, '')],
+            118: [((_zdm([('trial', 'int'), ('trace', 3)]),), {}, ''), ((_empty_selection(3),), {}, '')],
+            119: [((_zdm([('trial', 'int'), ('trace', 5)]),), {}, ''), ((_empty_selection(5),), {}, '')],
+            120: [((_zdm([('s', 2)], rows=1),), {}, '')],
+            121: [((_zdm([('s', 3)], rows=1),), {}, '')],
+            122: [((_zdm([('b', 'int'), ('a', 'int')], rows=2, sort=False),), {}, ''),
+                  ((_zdm([('b', 'int'), ('a', 'int')], rows=2, sort=False),), {}, '')],
+            123: [((_zdm([('a', 'int'), ('b', 'int')], rows=2, sort=False),), {}, '')],
+            124: [((_zdm([('s', 2), ('t', 3)]),), {}, '')],
+            125: [((_zdm([('s', 3), ('t', 2)]),), {}, '')],
+            126: [(([_zdm([('s', 2)])],), {'m': _zdm([('s', 5)])}, '')],
+            127: [(([_zdm([('s', 5)])],), {'m': _zdm([('s', 2)])}, '')],
+        })
+    return {b: list(forms) for b, forms in _SHAPE.items()}
+
+
+# thunk slots: paths into (args, kwargs) -- 'a' / 'k', then indices / keys -- whose values are replaced by callables, in
+# this order, in the thunk variants of a base (class = base + MOD * number of slots taken).  Bases that are not listed:
+# their first two positional arguments.  No slot lies inside another one.
+NESTED_SLOTS = {
+    100: [('a', 0, 'left', 0), ('a', 0, 'right', 0), ('k', 'extra', 0, 0)],      # dict of lists; keyword -> list of pairs
+    101: [('a', 0, 1, 1, 0), ('a', 0, 1, 0), ('a', 1)],                          # depth 3, depth 2, a top-level sibling
+    102: [('a', 0, 'k', 0, 'm')],                                                # dict -> tuple -> dict
+    103: [('k', 'opt', 'inner', 1), ('k', 'opt', 'inner', 0)],                   # keyword -> dict -> list
+    104: [('a', 0, 0), ('a', 0, 1, 0)],                                          # a direct member, then one deeper
+    105: [('a', 0, 0, 0), ('a', 0, 1)],                                          # a deeper one, then a direct sibling
+    106: [('a', 1, 0, 0), ('k', 'kw', 0, 'd', 0), ('a', 0)],
+    107: [('a', 0, 0, 0)],                                                       # the value of the callable is a list
+    108: [('a', 0, 0, 1), ('a', 0, 0, 0), ('k', 't', 'u', 0)],                   # next to / returning a DataMatrix
+    109: [('a', 1, 'a', 'b', 'c')],                                              # three dicts down
+}
+assert sorted(NESTED_SLOTS) == NESTED_BASES
+
+
+def slots_of(b, forms):
+    if b in NESTED_SLOTS:
+        return NESTED_SLOTS[b]
+    return [('a', i) for i in range(min(2, len(forms[0][0])))]
+
+
+def _path_get(x, path):
+    for h in path:
+        x = x[h]
+    return x
+
+
+def _path_put(x, path, new):
+    """a copy of x (tuples stay tuples, dicts keep their insertion order) in which the value at path is new"""
+    if not path:
+        return new
+    h = path[0]
+    if isinstance(x, dict):
+        return {k: (_path_put(v, path[1:], new) if k == h else v) for k, v in x.items()}
+    items = [(_path_put(v, path[1:], new) if i == h else v) for i, v in enumerate(x)]
+    return tuple(items) if isinstance(x, tuple) else items
+
+
+def _zdm(spec, rows=0, sort=True):
+    """a table with `rows` rows (default: none) and the columns spec = [(name, 'int' | 'float' | 'mixed' | depth of a
+    series column)], created in that order; every cell is the default of its column type (0 / '' / zeros ... -- int
+    columns of tables with rows are filled with 1, 2, ...)"""
+    from datamatrix import DataMatrix, FloatColumn, IntColumn, MixedColumn, SeriesColumn
+    dm = DataMatrix(length=rows)
+    if not sort:
+        dm.sorted = False
+    for name, kind in spec:
+        if isinstance(kind, int):
+            dm[name] = SeriesColumn(depth=kind)
+            if rows:
+                dm[name] = 0
+        else:
+            dm[name] = {'int': IntColumn, 'float': FloatColumn, 'mixed': MixedColumn}[kind]
+            if rows:
+                dm[name] = list(range(1, rows + 1))
+    return dm
+
+
+def _empty_selection(depth):
+    """`dm.trial > 99` on a table with four rows: nothing is selected, the columns remain"""
+    import numpy as np
+    from datamatrix import DataMatrix, IntColumn, SeriesColumn
+    dm = DataMatrix(length=4)
+    dm.trial = IntColumn
+    dm.trial = [1, 2, 3, 4]
+    dm.trace = SeriesColumn(depth=depth)
+    dm.trace = np.arange(4 * depth, dtype=float).reshape((4, depth))
+    return dm.trial > 99
 
 
 _K1 = 'hello_world'
@@ -289,7 +577,8 @@ def canon(x):
     if isinstance(x, dict):
         return ['map'] + [[_fresh(k), canon(v)] for k, v in sorted(x.items())]
     if isinstance(x, DataMatrix):
-        return ['dm', len(x)] + [[name, type(col).__name__, [canon(v) for v in col]] for name, col in x.columns]
+        return ['dm', len(x)] + [[name, type(col).__name__, _col_shape(col), [canon(v) for v in col]]
+                                 for name, col in x.columns]
     if callable(x):
         return ['callable', getattr(x, '__name__', '?')]
     try:
@@ -315,12 +604,19 @@ def _cell_text(v):
     return repr(v)
 
 
+def _shape_text(col):
+    """the depth of a series column (its cells do not tell it when there are no rows)"""
+    return ('x%d' % col.depth) if hasattr(col, 'depth') else ''
+
+
 def dm_text(x):
     """The content of a DataMatrix for the L0 relation, independent of convert.to_json and of every printer that
-    abbreviates: length, then per column its name, its type and every cell (repr of the Python scalar: 1 / 1.0 /
-    True / '1' / None / nan differ, floats in full precision; a SeriesColumn cell as the nested list of its floats)."""
+    abbreviates: length, then per column (in the order in which the table presents its columns) its name, its type, for
+    a series column its depth, and every cell (repr of the Python scalar: 1 / 1.0 / True / '1' / None / nan differ,
+    floats in full precision; a SeriesColumn cell as the nested list of its floats)."""
     return 'dm(%d;%s)' % (len(x), ';'.join(
-        '%r:%s:[%s]' % (name, type(col).__name__, ','.join(_cell_text(v) for v in col)) for name, col in x.columns))
+        '%r:%s%s:[%s]' % (name, type(col).__name__, _shape_text(col), ','.join(_cell_text(v) for v in col))
+        for name, col in x.columns))
 
 
 # ------------------------------------------------------------------ key derivation: literals and accessors
@@ -445,17 +741,22 @@ class World(object):
             world.forced[0] += 1
             return val
         th.__name__ = 'th_%d_%d' % (b, pos)
+        th.value = val
         return th
 
     def form(self, cls, fi):
-        """concrete (args, kwargs) of class id cls = base + 100*t, form index fi"""
-        b, t = cls % 100, cls // 100
+        """concrete (args, kwargs) of class id cls = base + MOD*t, form index fi: the first t thunk slots of the base
+        (top-level positions, or the paths of NESTED_SLOTS) hold a callable that returns the value of the slot"""
+        b, t = cls % MOD, cls // MOD
         forms = self.B[b]
         a, k, _ = forms[fi % len(forms)]
-        a = list(a)
-        for pos in range(t):
-            a[pos] = self.thunk(b, pos, a[pos])
-        return tuple(a), dict(k)
+        x = {'a': tuple(a), 'k': dict(k)}
+        for pos, path in enumerate(slots_of(b, forms)[:t]):
+            x = _path_put(x, path, self.thunk(b, pos, _path_get(x, path)))
+        return tuple(x['a']), dict(x['k'])
+
+    def nslots(self, b):
+        return len(slots_of(b, self.B[b]))
 
     def folder(self, fid):
         return os.path.join(self.root, 'f%d' % fid)
@@ -473,9 +774,8 @@ class World(object):
         km = {}
         per_class = {}
         for b, forms in self.B.items():
-            nargs = len(forms[0][0])
-            for t in range(0, min(2, nargs) + 1):
-                cls = b + 100 * t
+            for t in range(0, self.nslots(b) + 1):
+                cls = b + MOD * t
                 for fi, (_a, _k, flag) in enumerate(forms):
                     a, k = self.form(cls, fi)
                     try:
@@ -497,6 +797,15 @@ class World(object):
         return problems
 
 
+def _mutate_table(dm):
+    """isolation probe: change what was handed out -- a new column, the first cell of every column, the flags"""
+    dm.mutated = 1
+    if len(dm):
+        for _name, col in dm.columns:
+            col[0] = 77
+    dm.sorted = not dm.sorted
+
+
 def opts_lit(o):
     x = 'None' if o['key'] is None else '(Some (%d))' % XKEYS[o['key']]
     return '(mo %s %s %s %s %d)' % (L.boolean(o['persistent']), x, L.boolean(o['lazy']), L.z(o['max_size']),
@@ -515,7 +824,7 @@ class C20:
     rule = ('seeded call histories (4-12 operations quick, 10-40 thorough) over 1-4 memoize instances wrapping one '
             'body: every combination of persistent x key(None/explicit) x lazy x max_size(1 GiB, 0, below one value, '
             '1-4 values) is used as first instance, further instances share or do not share one of 3 temp folders; '
-            'operations: call with one of 94 argument classes (int/float/bool/str/None scalars, positional pairs, '
+            'operations: call with one of 141 argument classes (int/float/bool/str/None scalars, positional pairs, '
             'lists vs tuples (same class), nested containers, dicts, keyword forms and dicts written in several orders '
             '(same class), unicode, strings that need escaping or imitate the separators of the hashed text, -0.0, '
             'DataMatrix values equal / differing in one cell / one column name / row order / column type / NaN vs None; '
@@ -524,21 +833,43 @@ class C20:
             'equal numbers, one cell in the middle of a column of 1100 cells (int, float) or of a 340x3 series; '
             '14 argument lists for which the body returns a falsy / unusual value: None, 0, \'\', [], False, NaN, 0.0, '
             '{}, (), an empty DataMatrix, (None, 0), b\'\', [None], True -- in every option combination, in the '
-            'persist / clear / fifo scenarios and in a scenario with a second instance on the same or another folder), '
+            'persist / clear / fifo scenarios and in a scenario with a second instance on the same or another folder); '
+            '15 argument lists for which the body RETURNS a DataMatrix with non-default configuration / structure '
+            '(sorted = False with columns created in non-alphabetical order, a sorted table created in reverse order, a column '
+            'known under two names, default_col_type Float / Int, series columns of depth 3 and -- without rows -- 2 / 4 / 5, '
+            'Int / Float / Mixed columns with 2**53+1, inf, 5e-324, None, rows taken out of another table in another order, '
+            'typed columns without rows, an empty selection, tables inside a list / tuple): the value of the first call, of a '
+            'hit and of a persistent hit in a new instance is identified by everything the property can observe of it (length, '
+            'sorted flag, default column type, names and columns as listed, types, shapes, every cell, which names are one '
+            'column object, row ids, np.array(dm) which follows creation order), and the table handed out is mutated (new '
+            'column, first cell of every column, sorted flag); 18 DataMatrix ARGUMENTS without rows or differing only in what a '
+            'lossy serialisation drops (depth of a series column without rows or with all-zero rows, Int / Float / Mixed / no '
+            'column without cells, the name of such a column, empty selections `dm.col > 99` of tables with series of depth 3 / '
+            '5, column order of unsorted tables, two series columns with swapped depths, such tables inside a list and as a '
+            'keyword) in nearly-equal pairs; 10 argument lists with values below the top level (depth 2-4 inside lists / '
+            'tuples / dicts / keyword values, next to non-callable siblings, a DataMatrix sibling, a list-valued slot) whose '
+            'thunk variants put callables there in lazy instances (class = base + 1000 x number of callables); '
             'thunk variants in lazy instances, clear(), new instance (constructed directly or through '
             'memoize(**options)(fnc)); the returned object is mutated after every call (isolation). Observed per call: '
             'value id, execution-counter delta, thunk-counter delta, _cache keys in order, cache_size, files of the '
             'folder. non-trivial = the history contains a hit and a run; distinct by (options, operations). '
             'Key derivation: for every class (but the 6 tables of more than 1000 cells, whose texts exceed what a Coq '
             'string literal can hold: they are compared pairwise at L0 only, same key iff same table, and enter the '
-            'histories), form and thunk variant (250 argument lists) the text hashed by _memkey '
+            'histories), form and thunk variant (383 argument lists) the text hashed by _memkey '
             '(recomputed with the instance\'s own serialisers, its md5 compared with _memkey) is compared with the text '
             'the L1 model computes inside Coq, and key equality is compared with the L0 relation "same argument list" '
-            'for all pairs at once and for every form against form 0 of its class')
+            'for all pairs at once and for every form against form 0 of its class. '
+            'Lazy evaluation: 154 single executions of a recording body (every thunk variant and form of the bases with '
+            'callables below the top level, lazy and non-lazy; form 0 with all slots taken of the other bases): what the body '
+            'received and the number of callables evaluated are judged by Spec/MemoLazy.lazy_observed_ok (every callable '
+            'evaluated once, no callable received, received = arguments with callables replaced by their values up to tuple ~ '
+            'list) and compared exactly with Model/MemoLazy.lazy_call on the regenerated k_lazy_obj; the second call must be a '
+            'hit that evaluates nothing')
     trusted_base = [
         'Coq 8.16.1 kernel (coqc; vm_compute for evaluating cases; no native_compute)',
         'translator /verif/translate/gen_memo.py (+ py2coq.py): _call_without_arguments, _read_cache, _write_cache, '
-        '_serialize_obj (dispatch chain), the sort key of _serialize_kwargs, the list hashed by _memkey '
+        '_serialize_obj (dispatch chain), _lazy_evaluation_obj (dispatch chain; the comprehensions of _lazy_evaluation_args '
+        '/ _lazy_evaluation_kwargs pinned), the sort key of _serialize_kwargs, the list hashed by _memkey '
         '-> Gen/KMemo.v incl. its pinned statements (effects, comprehensions, json_tricks.dumps / to_json / repr / md5 calls)',
         'harness/c20.py (runner, value/key identification, isolation probe, literals of the argument lists, the '
         'accessor that recomputes the hashed text, dm_text() as the content of a DataMatrix for the L0 relation, '
@@ -570,8 +901,12 @@ class C20:
         'a DataMatrix enters the L0 relation by its content as described by the harness (length, column names in '
         'order, column types, cells; every cell by the repr of its Python scalar, a series cell by the list of its floats: '
         'no printer that abbreviates) and the L1 model by the text of convert.to_json (which also holds the row ids)',
-        'a returned value is identified by its type name and repr (a DataMatrix by its content): results that differ only '
-        'in object identity or in the payload of a NaN are one value',
+        'a returned value is identified by its type name and repr (a DataMatrix -- also inside a list / tuple -- by '
+        'dm_observe(): length, sorted flag, default column type, names / columns as listed, types, shapes, cells, aliasing of '
+        'columns, row ids, np.array(dm)): results that differ only in object identity (or the _id of a table) or in the '
+        'payload of a NaN are one value',
+        'lazy evaluation: the values of the callables of an argument list hold no callables (values are not evaluated '
+        'again -- as the implementation does it); a CallableFloat (col.mean) is a number of the argument datatype',
         'a non-persistent instance sharing a folder with persistent ones deletes the file of the re-executed key on '
         'clear(): modelled (L0 and L1) as the implementation does it',
     ]
@@ -636,14 +971,20 @@ class C20:
                     if ran not in (0, 1):
                         pyfail.append('body executed %d times in one call' % ran)
                     # isolation probe: mutate what was returned
-                    if v in SPECIAL_BASES:      # (with an explicit key: whatever class was stored first)
+                    # (with an explicit key: whatever class was stored first; a value that is not the expected value of
+                    # any class is judged through its id, and probed by its type)
+                    if v in SPECIAL_BASES or v == UNKNOWN_VALUE:
                         try:
                             if isinstance(r, list):
                                 r.append('mutated')
                             elif isinstance(r, dict):
                                 r['mutated'] = 1
                             elif type(r).__name__ == 'DataMatrix':
-                                r.mutated = 1
+                                _mutate_table(r)
+                            if isinstance(r, (list, tuple)):
+                                for x in r:
+                                    if type(x).__name__ == 'DataMatrix':
+                                        _mutate_table(x)
                         except Exception:       # noqa: BLE001  (a wrong result was identified by vid above)
                             pass
                     else:
@@ -669,18 +1010,20 @@ class C20:
         finally:
             shutil.rmtree(root, ignore_errors=True)
         # sizes of the values this history can store or return (the other value ids are not referred to)
-        used = {op[2] % 100 for op in ops if op[0] == 'call'}
+        used = {op[2] % MOD for op in ops if op[0] == 'call'}
         sizes = L.lst('(%d, %d)' % (b, s) for b, s in sorted(w.sizes.items()) if b in used)
         return trace, observed, sizes, pyfail, w.evicted
 
     @staticmethod
     def B_flag(w, cls, fi):
-        forms = w.B[cls % 100]
+        forms = w.B[cls % MOD]
         return forms[fi % len(forms)][2]
 
     def rerun(self, inp):
         if 'keytext' in inp or 'keypair' in inp or 'keymatrix' in inp:
             return self._key_rerun(inp)
+        if 'lazyeval' in inp:
+            return self._lazyeval_case(*inp['lazyeval'])
         if 'probe' in inp:
             for c in self._lazy_nameless_probes() + (self._pending_probes() if inp['probe'].startswith('pending_') else []):
                 if c['input']['probe'] == inp['probe']:
@@ -716,7 +1059,7 @@ class C20:
     # ---- generator -----------------------------------------------------------
     def _history(self, rng, first, maxlen, kworder_both):
         w_sizes = self._sizes
-        lazy_bases = [b for b, forms in self._B.items() if len(forms[0][0]) >= 1]
+        lazy_bases = [b for b, forms in self._B.items() if slots_of(b, forms)]
         orient = rng.randint(0, 1)
 
         def new_opts(o=None):
@@ -744,6 +1087,13 @@ class C20:
         if rng.random() < 0.3:
             for pair in rng.sample(DM_NEAR_PAIRS, 2):
                 pool_b += list(pair)
+        if rng.random() < 0.25:
+            for pair in rng.sample(DM_SHAPE_PAIRS, 2):
+                pool_b += list(pair)
+        if rng.random() < (0.5 if first is not None and first['lazy'] else 0.15):
+            pool_b += rng.sample(NESTED_BASES, 2)
+        if rng.random() < 0.3:
+            pool_b += rng.sample(RET_TABLE_BASES, rng.randint(1, 3))
         if rng.random() < 0.35:
             pool_b += rng.sample(SPECIAL_BASES, rng.randint(1, 3))
             if rng.random() < 0.5:
@@ -769,12 +1119,12 @@ class C20:
                 b = rng.choice(pool_b)
                 t = 0
                 if o['lazy'] and b in lazy_bases and rng.random() < 0.6:
-                    t = rng.randint(1, min(2, len(self._B[b][0][0])))
+                    t = rng.randint(1, len(slots_of(b, self._B[b])))
                 forms = self._B[b]
                 ok = [fi for fi, fm in enumerate(forms) if kworder_both or fm[2] != 'kwperm']
                 if not kworder_both and any(fm[2] == 'kwperm' for fm in forms) and orient == 1:
                     ok = [fi for fi, fm in enumerate(forms) if fm[2] == 'kwperm']
-                ops.append(['call', i, b + 100 * t, rng.choice(ok)])
+                ops.append(['call', i, b + MOD * t, rng.choice(ok)])
         return ops
 
     def _okform(self, b, fi):
@@ -821,6 +1171,7 @@ class C20:
             ops = self._history(rng, None, maxlen, both)
             cases.append(self.rerun({'ops': ops, 'tags': ['random']}))
         cases.extend(self._lazy_nameless_probes())
+        cases.extend(self._lazyeval_cases())
         cases.extend(self._key_cases())
         if INCLUDE_PENDING_FINDINGS:
             cases.extend(self._pending_probes())
@@ -875,14 +1226,104 @@ class C20:
                         'tags': ['probe', 'probe:lazy_nameless']})
         return out
 
+    # ---- lazy evaluation: what the body receives -------------------------------------
+    def _lazyeval_cases(self):
+        """One execution of the body per argument list that holds callables: every thunk variant and form of the bases
+        with callables below the top level (NESTED_SLOTS), in a lazy and in a non-lazy instance; of the other bases form 0
+        with all their slots taken, lazy."""
+        w = World(None)
+        out = []
+        for b in sorted(w.B):
+            if b in DM_LONG:
+                continue
+            n = w.nslots(b)
+            if b in NESTED_SLOTS:
+                for t in range(1, n + 1):
+                    for fi in range(len(w.B[b])):
+                        out.append(self._lazyeval_case(b + MOD * t, fi, True))
+                    out.append(self._lazyeval_case(b + MOD * t, 0, False))
+            elif n and b not in RET_TABLE_BASES:
+                out.append(self._lazyeval_case(b + MOD * n, 0, True))
+        return out
+
+    def _lazyeval_case(self, cls, fi, lazy):
+        """The argument list (cls, fi) is passed to a fresh memoize instance whose body records what it is given.
+        L0 (lazy instances; Spec/MemoLazy.v): every callable -- wherever it stands -- was evaluated exactly once, the body
+        received no callable, and it received the argument list with every callable replaced by its value; the call
+        returns what the unwrapped body returns for those arguments; a second call is a hit that evaluates nothing.
+        L1 (Model/MemoLazy.v on the regenerated k_lazy_obj): the model's evaluated argument list is exactly what the body
+        received (a rebuilt sequence is a list), and it evaluates as many callables.  In a non-lazy instance callables are
+        outside the property's quantifier: only the model is compared (nothing is evaluated, nothing is rebuilt)."""
+        from datamatrix import functional as fnc
+        warnings.filterwarnings('ignore')
+        w = World(None)
+        a, k = w.form(cls, fi)
+        got = []
+
+        def body(*args, **kwargs):
+            got.append((args, kwargs))
+            return plain_body(args, kwargs)
+        pyfail = []
+        observed = {}
+        f0 = w.forced[0]
+        try:
+            g = fnc.memoize(body, lazy=lazy)
+            r = g(*a, **k)
+            forced = w.forced[0] - f0
+            r2 = g(*a, **k)
+            forced2 = w.forced[0] - f0 - forced
+            observed = {'forced': forced, 'forced_on_hit': forced2, 'runs': len(got), 'value': vdesc(r)[:200]}
+            if len(got) != 1:
+                pyfail.append('the body ran %d times in two calls with the same arguments' % len(got))
+            if forced2 != 0:
+                pyfail.append('%d callables were evaluated on a cache hit' % forced2)
+            if lazy and (vdesc(r) != w.expected[cls % MOD] or vdesc(r2) != w.expected[cls % MOD]):
+                pyfail.append('the call does not return what the unwrapped body returns for the evaluated arguments')
+        except Exception as e:      # noqa: BLE001  (the property promises a value for every call)
+            pyfail.append('the call raised %s: %s' % (type(e).__name__, e))
+        inp = {'lazyeval': [cls, fi, bool(lazy)]}
+        case = {'input': inp, 'observed': observed, 'pyfail': '; '.join(pyfail) or None, 'oracle': 'true', 'model': 'true',
+                'nontrivial': True, 'sig': 'lazyeval|%d|%d|%s' % (cls, fi, lazy),
+                'tags': ['lazyeval', 'lazyeval:nested' if cls % MOD in NESTED_SLOTS else 'lazyeval:top',
+                         'lazyeval:lazy' if lazy else 'lazyeval:not-lazy']}
+        if not got:
+            case['model'] = 'false'
+            return case
+
+        def thunks_in(x, acc):
+            if isinstance(x, dict):
+                for v in x.values():
+                    thunks_in(v, acc)
+            elif isinstance(x, (list, tuple)):
+                for v in x:
+                    thunks_in(v, acc)
+            elif callable(x) and hasattr(x, 'value'):
+                acc.append(x)
+            return acc
+        ths = thunks_in([a, k], [])
+        ra, rk = got[0]
+        try:
+            for for_model in (False, True):
+                fl = {}
+                tab = L.lst('(%s, %s)' % (L.string(th.__name__), arg_lit(th.value, for_model, fl)) for th in ths)
+                c = call_lit(a, k, for_model, fl)
+                rec = call_lit(ra, rk, for_model, fl)
+                if for_model:
+                    case['model'] = '(lazy_agrees %s %s %s %s %d)' % (tab, L.boolean(lazy), c, rec, observed['forced'])
+                elif lazy:
+                    case['oracle'] = '(lazy_ok %s %s %s %d)' % (tab, c, rec, observed['forced'])
+        except ValueError as e:     # the body received something outside the argument alphabet
+            case['pyfail'] = '; '.join(pyfail + ['the body received %s' % e])
+        return case
+
     def _scenario(self, rng):
         bs = sorted(self._B)
         a, b, c = rng.sample(bs, 3)
         kind = rng.choice(['persist', 'clear', 'fifo', 'xkey', 'lazy', 'equal-forms', 'dm', 'dm-near', 'falsy', 'falsy'])
         if kind == 'falsy' or (kind in ('persist', 'clear', 'fifo') and rng.random() < 0.3):
             # the same scenarios on argument lists whose result is None / 0 / '' / [] / False / NaN / ...
-            a, b, c = rng.sample(SPECIAL_BASES, 3)
-            if rng.random() < 0.4 and SPECIAL_BASES[0] not in (b, c):
+            a, b, c = rng.sample(RET_TABLE_BASES if rng.random() < 0.5 else SPECIAL_BASES, 3)
+            if rng.random() < 0.4 and SPECIAL_BASES[0] not in (b, c) and a not in RET_TABLE_BASES:
                 a = SPECIAL_BASES[0]        # None
         if kind == 'falsy':
             # every option combination, a second instance on the same folder, clear()
@@ -890,7 +1331,7 @@ class C20:
             o = {'persistent': rng.random() < 0.6, 'key': rng.choice([None, None, None, 'k1']), 'lazy': rng.random() < 0.3,
                  'max_size': rng.choice([ONE_GIGABYTE, ONE_GIGABYTE, sz[a] + sz[b], sz[a] + sz[b] + sz[c], sz[a]]),
                  'folder': rng.randint(0, 2)}
-            t = 100 * rng.randint(0, 2) if o['lazy'] else 0
+            t = MOD * rng.randint(0, 2) if o['lazy'] else 0
             o2 = dict(o, via='decorator')
             if rng.random() < 0.3:
                 o2['folder'] = (o['folder'] + 1) % 3
@@ -905,7 +1346,7 @@ class C20:
             for x, y in rng.sample(DM_NEAR_PAIRS, 4):
                 if rng.random() < 0.5:
                     x, y = y, x
-                t = 100 if o['lazy'] and rng.random() < 0.5 else 0
+                t = MOD if o['lazy'] and rng.random() < 0.5 else 0
                 ops += [['call', 0, x + t, 0], ['call', 0, y + t, rng.randint(0, 1)], ['call', 0, x, rng.randint(0, 1)]]
             return ops
         if kind == 'persist':
@@ -928,11 +1369,17 @@ class C20:
             return [['new', o], ['call', 0, a, 0], ['call', 0, b, 0], ['clear', 0], ['call', 0, c, 0], ['call', 0, a, 0],
                     ['new', dict(o, key='k2')], ['call', 1, b, 0], ['call', 1, a, 0], ['new', o], ['call', 2, b, 0]]
         if kind == 'lazy':
-            lb = [x for x in bs if len(self._B[x][0][0]) >= 1]
-            a = rng.choice(lb)
+            lb = [x for x in bs if slots_of(x, self._B[x])]
+            a = rng.choice(NESTED_BASES if rng.random() < 0.5 else lb)
+            n = len(slots_of(a, self._B[a]))
+            # every number of callables the base has slots for (below the top level: NESTED_SLOTS), all forms
+            t1 = MOD * rng.randint(1, n)
+            t2 = MOD * rng.randint(1, n)
+            f1, f2 = self._okform(a, rng.randint(0, 2)), self._okform(a, rng.randint(0, 2))
             o = {'persistent': rng.random() < 0.3, 'key': None, 'lazy': True, 'max_size': ONE_GIGABYTE, 'folder': 0}
-            return [['new', o], ['call', 0, a + 100, 0], ['call', 0, a + 100, 0], ['call', 0, a, 0], ['call', 0, a, 0],
-                    ['clear', 0], ['call', 0, a + 100, 0], ['call', 0, a + 100, 0]]
+            return [['new', o], ['call', 0, a + t1, f1], ['call', 0, a + t1, f2], ['call', 0, a, 0], ['call', 0, a, f1],
+                    ['call', 0, a + t2, f2], ['clear', 0], ['call', 0, a + t1, 0], ['call', 0, a + t1, f1],
+                    ['new', dict(o, via='decorator')], ['call', 1, a + t2, f2], ['call', 1, a + MOD * n, f1]]
         if kind == 'equal-forms':
             o = {'persistent': rng.random() < 0.3, 'key': None, 'lazy': rng.random() < 0.3, 'max_size': ONE_GIGABYTE,
                  'folder': 0}
@@ -943,7 +1390,8 @@ class C20:
             return ops
         o = {'persistent': rng.random() < 0.5, 'key': None, 'lazy': False, 'max_size': ONE_GIGABYTE, 'folder': 1}
         ops = [['new', o]]
-        for x in rng.sample([30, 31, 32, 33, 34, 35, 36, 37, 30, 31, 33, 30, 31, 33, 34, 35, 60, 61, 62, 63, 64, 36], 10):
+        for x in rng.sample([30, 31, 32, 33, 34, 35, 36, 37, 30, 31, 33, 30, 31, 33, 34, 35, 60, 61, 62, 63, 64, 36]
+                            + list(range(110, 128)), 10):
             ops.append(['call', 0, x, rng.randint(0, 2)])
         return ops
 
@@ -971,6 +1419,14 @@ class C20:
         def true():
             return 'evaluated'
         probe('callable_named_true', True, True, true, repr)
+        from datamatrix import DataMatrix, FloatColumn
+        t1, t2 = _dm({'x': [1, 2], 'y': [3, 4]}), _dm({'x': [1, 2], 'y': [3, 4]})
+        t2.sorted = False
+        probe('dm_sorted_flag', False, t1, t2, lambda dm: bool(dm.sorted))
+        t3 = DataMatrix(length=2, default_col_type=FloatColumn)
+        t3.x = [1, 2]
+        t4 = _tdm('float', [1, 2])
+        probe('dm_default_col_type', False, t3, t4, lambda dm: dm.default_col_type.__name__)
         return out
 
     # ---- key derivation cases ---------------------------------------------------
@@ -987,9 +1443,11 @@ class C20:
             if b in DM_LONG:        # their texts are too long for Coq string literals: see _long_pair_cases
                 continue
             forms = w.B[b]
-            for t in range(0, min(2, len(forms[0][0])) + 1):
+            # (the argument lists (RET, tag) of the returned tables differ from those of the falsy results in the tag only:
+            # their thunk variants enter the histories and build_keymap, not the text comparison)
+            for t in range(0, (0 if b in RET_TABLE_BASES else len(slots_of(b, forms))) + 1):
                 for fi in range(len(forms)):
-                    out.append((b + 100 * t, fi))
+                    out.append((b + MOD * t, fi))
         return out
 
     @staticmethod
@@ -1096,7 +1554,7 @@ class C20:
             for c in self._key_shrink(inp):
                 yield c
             return
-        if 'probe' in inp:
+        if 'probe' in inp or 'lazyeval' in inp:
             return
         ops = inp['ops']
         for i in range(len(ops) - 1, -1, -1):
